@@ -2,11 +2,10 @@
 //!   ops.txt      one op per line for the Lean driver
 //!   impl.out     the implementation's answer to each op (what the model must reproduce)
 //!   oracle.json  property clauses checked directly on the implementation + distribution
-mod b_pt;
-mod b_sp;
-mod netgen;
-mod prng;
-mod proto;
+pub mod netgen;
+pub mod prng;
+pub mod proto;
+include!(concat!(env!("OUT_DIR"), "/blocks.rs"));
 
 use proto::Ctx;
 use std::io::Write;
@@ -32,13 +31,9 @@ fn main() {
     std::panic::set_hook(Box::new(|_| {}));
     let mut ctx = Ctx::default();
     let mut rng = prng::Rng::new(seed);
-    match block.as_str() {
-        "sp" => b_sp::run(&mut ctx, &mut rng, &tier),
-        "pt" => b_pt::run(&mut ctx, &mut rng, &tier),
-        _ => {
-            eprintln!("unknown block {block}");
-            std::process::exit(2);
-        }
+    if !run_block(&block, &mut ctx, &mut rng, &tier) {
+        eprintln!("unknown block {block}");
+        std::process::exit(2);
     }
     std::fs::create_dir_all(&out).unwrap();
     let mut fo = std::io::BufWriter::new(std::fs::File::create(format!("{out}/ops.txt")).unwrap());
